@@ -42,6 +42,9 @@
 #ifndef DEPTH
 #define DEPTH 2
 #endif
+#ifndef PMAX  // largest period of the unrelated parent-level ticker
+#define PMAX DMAX
+#endif
 #ifndef NDEF
 #define NDEF 9
 #endif
@@ -248,7 +251,13 @@ EventLog<LOGCAP> g_log[NMODE];
 }  // namespace
 
 extern "C" int harness_main() {
-    int def = verif_choice("def", NDEF);
+    // Two-stage enumeration (only to balance the shards: the expensive internal-timer definitions 1, 5, 8 are reached after at
+    // most 4 forks instead of up to 8): grp 0 = timer definitions, grp 1 = the others; `def` is then made concrete.
+    int grp = verif_choice("grp", 2);
+    std::int64_t dsym = verif_range("def", 0, NDEF - 1);
+    bool is_timer_def = (dsym == 1) | (dsym == 5) | (dsym == 8);
+    verif_assume(grp == 0 ? is_timer_def : !is_timer_def);
+    int def = (int)verif_concretize(dsym);
     if (!((DEF_MASK >> def) & 1)) { verif_end_path(); return 0; }
     std::int64_t s0 = verif_range("start", 0, 1000);
     std::int64_t win = verif_range("window", 1, WMAX);
@@ -266,7 +275,7 @@ extern "C" int harness_main() {
     const bool uses_timer = def == 1 || def == 5 || def == 8;
     for (int i = 0; i < NT; i++) g_td[i] = uses_timer ? verif_range("tdelta", 1, DMAX) : 1;
     g_with_ticker = uses_timer;
-    g_pp = uses_timer ? verif_range("pperiod", 1, DMAX) : 1;
+    g_pp = uses_timer ? verif_range("pperiod", 1, PMAX) : 1;
 
     for (g_mode = 0; g_mode < NMODE; g_mode++) {
         RecordingObserver<LOGCAP> obs{&g_log[g_mode]};
